@@ -49,7 +49,7 @@ TRUSTED_BASE = [
     "harness/xdsl_compat.py; xDSL 0.70 parser, Block/Region/clone, SymbolTable lookup",
 ]
 ASSUMPTIONS = [
-    "history theorems (C20_history_correct_total, C20_bodies_history_correct): kernel graphs as encode produces them (kernel_total_ok, decidable) with one data arity per history; no assumption on attributes (since fix 29d845f) nor on the merge succeeding (C20_merge_succeeds); decode_sound/valid_mapping_sem/switch_count hold for any well-formed abstract graph",
+    "history theorems (C20_history_correct_total, C20_bodies_history_correct): kernel graphs as encode produces them (kernel_total_ok, decidable) with one data arity per history; no assumption on attributes (since fix 61ae0b2) nor on the merge succeeding (C20_merge_succeeds); decode_sound/valid_mapping_sem/switch_count hold for any well-formed abstract graph",
     "the decidable hypotheses of the theorems (pe_wf of every merged graph, kernel_total_ok of every encoded graph, body_total_ok of every generated body, block_ordered) are evaluated by the model on every real graph of the run (L1 kinds wf, kok, ord)",
     "the meaning of a scalar operation is an arbitrary function of (op name, attributes, operand values) (Section variable opsem); types are not modelled beyond their role in the choose-op ids",
     "a PE is evaluated demand-driven: only the choose ops on the selected paths are evaluated (hardware: all units compute, muxes select)",
